@@ -31,12 +31,42 @@ package aztec
 //@   loop 1 invariant out.count % wordSize == 0 && 0 <= i && i <= out.count && out.count * (wordSize - 1) <= i * wordSize
 //@   loop 1 invariant i < n + wordSize && (out.count == 0 || (out.count - wordSize) * (wordSize - 1) < n * wordSize)
 
+// the value of word i of a bit list cut into words of w bits, most significant bit first
+//@ define azVal(m map[int]bool, b int, w int) int = ((0 < w && m[b+0]) ? (1 << ((w-1-0 >= 0) ? (w-1-0) : 0)) : 0) + ((1 < w && m[b+1]) ? (1 << ((w-1-1 >= 0) ? (w-1-1) : 0)) : 0) + ((2 < w && m[b+2]) ? (1 << ((w-1-2 >= 0) ? (w-1-2) : 0)) : 0) + ((3 < w && m[b+3]) ? (1 << ((w-1-3 >= 0) ? (w-1-3) : 0)) : 0) + ((4 < w && m[b+4]) ? (1 << ((w-1-4 >= 0) ? (w-1-4) : 0)) : 0) + ((5 < w && m[b+5]) ? (1 << ((w-1-5 >= 0) ? (w-1-5) : 0)) : 0) + ((6 < w && m[b+6]) ? (1 << ((w-1-6 >= 0) ? (w-1-6) : 0)) : 0) + ((7 < w && m[b+7]) ? (1 << ((w-1-7 >= 0) ? (w-1-7) : 0)) : 0) + ((8 < w && m[b+8]) ? (1 << ((w-1-8 >= 0) ? (w-1-8) : 0)) : 0) + ((9 < w && m[b+9]) ? (1 << ((w-1-9 >= 0) ? (w-1-9) : 0)) : 0) + ((10 < w && m[b+10]) ? (1 << ((w-1-10 >= 0) ? (w-1-10) : 0)) : 0) + ((11 < w && m[b+11]) ? (1 << ((w-1-11 >= 0) ? (w-1-11) : 0)) : 0)
+//@ func bitsToWords
+//@   attr split wordSize 4 6 8 10 12
+//@   requires stuffedBits != nil && (wordSize == 4 || wordSize == 6 || wordSize == 8 || wordSize == 10 || wordSize == 12) && 0 <= wordCount && wordCount * wordSize <= stuffedBits.count && stuffedBits.count <= 1073741824
+//@   ensures fresh(result) && len(result) == wordCount
+//@   ensures forall i int :: 0 <= i && i < wordCount ==> 0 <= result[i] && result[i] < (1 << wordSize)
+//@   ensures forall i int :: 0 <= i && i < wordCount ==> result[i] == azVal(stuffedBits.model, i*wordSize, wordSize)
+//@   loop 1 invariant 0 <= i && i <= wordCount && fresh(message) && len(message) == wordCount
+//@   loop 1 invariant forall a int :: 0 <= a && a < i ==> 0 <= message[a] && message[a] < (1 << wordSize)
+//@   loop 1 invariant forall a int :: 0 <= a && a < i ==> message[a] == azVal(stuffedBits.model, a*wordSize, wordSize)
+//@   loop 2 unroll
+
+// data words first, then the Reed-Solomon check words, totalBits in all (the few leading pad bits
+// only occur for the data message of full-range symbols). That the data bits are unchanged is
+// proved for word sizes 4, 6 and 8 (mode message, symbols up to 8 layers); for 10 and 12 bit
+// words the bit extraction from a 10/12-term sum exceeds the solvers' budget and is not claimed.
 //@ func generateCheckWords
 //@   abstract
 //@   attr fresh_bitlist totalBits
+//@   attr split wordSize 4 6 8 10 12
 //@   requires bits != nil && (wordSize == 4 || wordSize == 6 || wordSize == 8 || wordSize == 10 || wordSize == 12)
-//@   requires bits.count % wordSize == 0 && bits.count / wordSize < totalBits / wordSize
+//@   requires bits.count % wordSize == 0 && bits.count / wordSize < totalBits / wordSize && 0 <= bits.count && totalBits <= 100000 && totalBits / wordSize - bits.count / wordSize < (1 << wordSize)
 //@   ensures result != nil && result.count == totalBits
+//@   ensures wordSize <= 8 ==> (forall k int :: 0 <= k && k < bits.count ==> result.model[totalBits % wordSize + k] == bits.model[k])
+//@   ensures forall k int :: 0 <= k && k < totalBits % wordSize ==> !result.model[k]
+//@   loop 1 invariant -1 <= rangeindex && rangeindex < len(messageWords) && messageBits != nil && fresh(messageBits) && messageBits.count == startPad + (rangeindex + 1) * wordSize
+//@   loop 1 invariant forall k int :: 0 <= k && k < startPad ==> !messageBits.model[k]
+//@   loop 1 invariant wordSize <= 8 ==> (forall k int :: 0 <= k && k < (rangeindex + 1) * wordSize ==> messageBits.model[startPad + k] == bits.model[k])
+//@   loop 2 invariant -1 <= rangeindex && rangeindex < len(eccWords) && messageBits != nil && fresh(messageBits) && messageBits.count == startPad + (len(messageWords) + rangeindex + 1) * wordSize
+//@   loop 2 invariant forall k int :: 0 <= k && k < startPad ==> !messageBits.model[k]
+//@   loop 2 invariant wordSize <= 8 ==> (forall k int :: 0 <= k && k < bits.count ==> messageBits.model[startPad + k] == bits.model[k])
+
+// bit t (0 = most significant) of the w-bit binary representation of v (ISO 24778 mode message:
+// layers - 1 and data codewords - 1, protected by Reed-Solomon words over GF(16))
+//@ define azBitOf(v int, w int, t int) bool = (w - 1 - t == 0) ? ((v / 1) % 2 == 1) : ((w - 1 - t == 1) ? ((v / 2) % 2 == 1) : ((w - 1 - t == 2) ? ((v / 4) % 2 == 1) : ((w - 1 - t == 3) ? ((v / 8) % 2 == 1) : ((w - 1 - t == 4) ? ((v / 16) % 2 == 1) : ((w - 1 - t == 5) ? ((v / 32) % 2 == 1) : ((w - 1 - t == 6) ? ((v / 64) % 2 == 1) : ((w - 1 - t == 7) ? ((v / 128) % 2 == 1) : ((w - 1 - t == 8) ? ((v / 256) % 2 == 1) : ((w - 1 - t == 9) ? ((v / 512) % 2 == 1) : ((v / 1024) % 2 == 1))))))))))
 
 // The automatic layer selection is unwound (driver "azauto") up to the point where the mode
 // message is generated: the preconditions of generateCheckWords / generateModeMessage are what a
@@ -49,3 +79,5 @@ package aztec
 //@   requires#words_min 1 <= messageSizeInWords
 //@   requires#words_max (compact ? messageSizeInWords <= 64 : messageSizeInWords <= 2048)
 //@   ensures result != nil && result.count == (compact ? 28 : 40)
+//@   ensures compact ==> (forall t int :: 0 <= t && t < 2 ==> result.model[t] == azBitOf(layers - 1, 2, t)) && (forall t int :: 0 <= t && t < 6 ==> result.model[2 + t] == azBitOf(messageSizeInWords - 1, 6, t))
+//@   ensures !compact ==> (forall t int :: 0 <= t && t < 5 ==> result.model[t] == azBitOf(layers - 1, 5, t)) && (forall t int :: 0 <= t && t < 11 ==> result.model[5 + t] == azBitOf(messageSizeInWords - 1, 11, t))
